@@ -417,11 +417,16 @@ def execute(sc, out):
         ans = []
         pending_fault = None
         pending_sanitise_fault = False
+        # a caller that runs with deprecation warnings of the library's own code escalated to errors (pytest -W error,
+        # python -W error::DeprecationWarning:speckit): the analysis of a non-finite record must still complete
+        strict = sc.get("seed", 0) % 5 == 1
+        if strict:
+            out.count("deprecations_are_errors_caller")
         for op in sc["ops"]:
             kind = op[0]
             out.sim_steps += 1
             try:
-                with clock.installed():
+                with clock.installed(), _strict_caller(strict):
                     if kind == "inject":
                         # the caller writes the non-finite samples into the SAME buffer, in place, after it was analysed clean
                         for ch, i, fk in sc["faults"]:
@@ -580,6 +585,27 @@ def _diff_vs_canonical(raw, can_raw, world, canon, cfg, out):
                 return nm
     out.count("real_numba_ulp_difference_within_budget")
     return None
+
+
+class _strict_caller:
+    def __init__(self, on):
+        self.on = on
+        self.cm = None
+
+    def __enter__(self):
+        if self.on:
+            import warnings
+
+            self.cm = warnings.catch_warnings()
+            self.cm.__enter__()
+            for cat in (DeprecationWarning, PendingDeprecationWarning):
+                warnings.filterwarnings("error", category=cat, module=r"speckit(\.|$)")
+        return self
+
+    def __exit__(self, *exc):
+        if self.cm is not None:
+            self.cm.__exit__(*exc)
+        return False
 
 
 def _check_finite(res, sc, out, where):
